@@ -376,6 +376,10 @@ Proof.
       rewrite In2, In1, S1, (collect_cons (wsv w) e r), app_assoc. reflexivity.
 Qed.
 
+Lemma run_mid_srv (mid : list event) (w : world) fl : wfl w = Some fl -> no_end mid -> Inv (wst w) ->
+  wsv (run_w w mid) = srv_after (wsv w) mid.
+Proof. intros F NE I. exact (proj1 (proj2 (proj2 (@run_mid mid w fl F NE I)))). Qed.
+
 (* the first request for n in a stretch of events, and the service state at that instant *)
 Lemma collect_assoc : forall (mid : list event) sv n sv' f u, assoc n (collect sv mid) = Some (sv', f, u) ->
   exists mid1 mid2, mid = mid1 ++ EReq n f u :: mid2 /\ sv' = srv_after sv mid1.
